@@ -142,3 +142,25 @@ impl Attrs {
         attrs.write_buf(contents);
     }
 }
+
+#[cfg(vt100_verif)]
+impl Attrs {
+    pub(crate) fn verif_dump(&self, out: &mut String) {
+        use std::fmt::Write as _;
+        for (i, c) in [self.fgcolor, self.bgcolor].iter().enumerate() {
+            if i > 0 {
+                out.push(',');
+            }
+            match c {
+                Color::Default => out.push('d'),
+                Color::Idx(i) => {
+                    let _ = write!(out, "i{i}");
+                }
+                Color::Rgb(r, g, b) => {
+                    let _ = write!(out, "r{r}.{g}.{b}");
+                }
+            }
+        }
+        let _ = write!(out, ",{}", self.mode);
+    }
+}
